@@ -385,7 +385,128 @@ func scriptedPeer(peerIsClient bool, conn io.ReadWriter, o hx.Op, a *action, r *
 	}
 }
 
+// execRekey: no attacker. First key exchange, then `rk` further key exchanges requested alternately by the two
+// sides with `app` application packets in each direction in between; the transports' sequence numbers are
+// sampled when everything is quiescent. Packet types are recorded by the recording keyingTransport (C31 hook).
+func execRekey(o hx.Op) string {
+	kex := o.Str("m")
+	var act atomic.Int64
+	c, s := pipePair(&act)
+	var sc, ss tlog
+	cv, sv := []byte("SSH-2.0-verifC"), []byte("SSH-2.0-verifS")
+	ccfg := &ssh.ClientConfig{User: "u", HostKeyCallback: ssh.InsecureIgnoreHostKey()}
+	ccfg.KeyExchanges = []string{kex}
+	ccfg.HostKeyAlgorithms = []string{"ssh-ed25519"}
+	scfg := &ssh.ServerConfig{NoClientAuth: true}
+	scfg.KeyExchanges = []string{kex}
+	scfg.AddHostKey(signer())
+	ch := ssh.VerifNewClientHandshakeRec(c, cv, sv, ccfg, func(p []byte) { sc.add(p[0]) })
+	sh := ssh.VerifNewServerHandshakeRec(s, cv, sv, scfg, func(p []byte) { ss.add(p[0]) })
+	defer func() { c.Close(); s.Close(); go ch.Close(); go sh.Close() }()
+	res := make(chan error, 2)
+	go func() { res <- ch.WaitSession() }()
+	go func() { res <- sh.WaitSession() }()
+	status := "ok"
+	for i := 0; i < 2; i++ {
+		select {
+		case err := <-res:
+			if err != nil {
+				status = "err"
+			}
+		case <-time.After(20 * time.Second):
+			status = "stall"
+		}
+	}
+	var crecv, srecv atomic.Int64
+	reader := func(h *ssh.VerifHandshake, n *atomic.Int64) {
+		for {
+			p, err := h.ReadPacket()
+			if err != nil {
+				return
+			}
+			if p[0] == 94 {
+				n.Add(1)
+			}
+		}
+	}
+	count := func(l *tlog, ty int) int {
+		l.mu.Lock()
+		defer l.mu.Unlock()
+		k := 0
+		for _, t := range l.t {
+			if t == ty {
+				k++
+			}
+		}
+		return k
+	}
+	if status == "ok" {
+		go reader(ch, &crecv)
+		go reader(sh, &srecv)
+		rk, app := o.Int("rk"), o.Int("app")
+		sent := int64(0)
+		for k := 0; k < rk && status == "ok"; k++ {
+			for j := 0; j < app; j++ {
+				ch.WritePacket([]byte{94, 0, 0, 0, byte(j)})
+				sh.WritePacket([]byte{94, 0, 0, 0, byte(j)})
+			}
+			sent += int64(app)
+			t0 := time.Now()
+			for crecv.Load() < sent || srecv.Load() < sent {
+				if time.Since(t0) > 15*time.Second {
+					status = "stall"
+					break
+				}
+				time.Sleep(100 * time.Microsecond)
+			}
+			if k%2 == 0 {
+				ch.RequestKeyExchange()
+			} else {
+				sh.RequestKeyExchange()
+			}
+			// wait until both sides have sent k+2 NEWKEYS and are idle again
+			t0 = time.Now()
+			for {
+				a, _ := ch.KexState()
+				b, _ := sh.KexState()
+				if !a && !b && count(&sc, 21) >= k+2 && count(&ss, 21) >= k+2 {
+					break
+				}
+				if time.Since(t0) > 15*time.Second {
+					status = "stall"
+					break
+				}
+				time.Sleep(100 * time.Microsecond)
+			}
+		}
+		// trailing application packets after the last NEWKEYS
+		tail := o.Int("tail")
+		for j := 0; j < tail; j++ {
+			ch.WritePacket([]byte{94, 0, 0, 1, byte(j)})
+			sh.WritePacket([]byte{94, 0, 0, 1, byte(j)})
+		}
+		sent += int64(tail)
+		t0 := time.Now()
+		for crecv.Load() < sent || srecv.Load() < sent {
+			if time.Since(t0) > 15*time.Second {
+				status = "stall"
+				break
+			}
+			time.Sleep(100 * time.Microsecond)
+		}
+		time.Sleep(2 * time.Millisecond)
+	}
+	ce, se := &endpoint{status: status}, &endpoint{status: status}
+	ce.rs, ce.ws, ce.strict, ce.idone = ch.SeqNums()
+	se.rs, se.ws, se.strict, se.idone = sh.SeqNums()
+	// what one side sent is what the other received (no attacker)
+	return "r" + ce.String("c") + se.String("s") + " dc=" + ss.String() + " ds=" + sc.String() + " sc=" + sc.String() + " ss=" + ss.String()
+}
+
 func execHS(o hx.Op) string {
+	if o.Str("mode") == "rekey" {
+		return execRekey(o)
+	}
 	kex := o.Str("m")
 	a := &action{dir: o.Str("dir"), act: o.Str("act"), pos: o.Int("pos"), ty: o.Int("ty"), pos2: -1}
 	if o.Has("pos2") {
@@ -553,6 +674,15 @@ func gen(g *hx.Gen) {
 						emit(m, mode, strict, "-", "ins", p1, r.PickInt(2, 4), ext+" pos2="+strconv.Itoa(p2)+" ty2="+strconv.Itoa(r.PickInt(2, 4)))
 					}
 				}
+			}
+		}
+	}
+	// no attacker: sequence numbers after further key exchanges (strict mode stays on, every NEWKEYS resets)
+	for _, m := range kexes {
+		for _, rk := range []int{1, 2, 3} {
+			for _, app := range []int{0, 1, 5} {
+				g.Emit("hs m=%s mode=rekey strict=1 dir=- act=none pos=0 ty=0 idle=%d seed=%d rk=%d app=%d tail=%d", m, idle, r.U64()>>1, rk, app, r.Intn(4))
+				g.Stat("mode.rekey")
 			}
 		}
 	}
